@@ -15,6 +15,7 @@ import (
 
 type ufState struct {
 	calls []ufCall
+	conc  map[string]bool // concrete inputs already recorded (tag + 0 + data): a repeated concrete call adds nothing
 }
 
 type ufCall struct {
@@ -61,6 +62,26 @@ func (in *Interp) hashUF(tag string, n int, data []*Term) []*Term {
 		}
 	}
 	var out []*Term
+	if !conc {
+		// A call whose input is term-for-term identical to an earlier call of the same tag returns that call's
+		// output terms (functional by construction): no fresh variables, no new constraints.
+		memo := map[[2]*Term]bool{}
+		for _, c := range in.uf.calls {
+			if c.tag != tag || len(c.in) != len(data) || len(c.out) != n {
+				continue
+			}
+			same := true
+			for i := range data {
+				if !termStructEq(c.in[i], data[i], memo) {
+					same = false
+					break
+				}
+			}
+			if same {
+				return c.out
+			}
+		}
+	}
 	if conc {
 		bs := make([]byte, len(data))
 		for i, t := range data {
@@ -69,6 +90,14 @@ func (in *Interp) hashUF(tag string, n int, data []*Term) []*Term {
 		for _, b := range realHash(tag, n, bs) {
 			out = append(out, C(8, uint64(b)))
 		}
+		key := fmt.Sprintf("%s\x00%d\x00%s", tag, n, bs)
+		if in.uf.conc == nil {
+			in.uf.conc = map[string]bool{}
+		}
+		if in.uf.conc[key] {
+			return out
+		}
+		in.uf.conc[key] = true
 	} else {
 		base := in.nvars
 		in.nvars++
@@ -98,6 +127,32 @@ func (in *Interp) hashUF(tag string, n int, data []*Term) []*Term {
 	}
 	in.uf.calls = append(in.uf.calls, ufCall{tag: tag, in: data, out: out})
 	return out
+}
+
+// termStructEq reports whether two terms are structurally identical (same operators, constants and variables).
+func termStructEq(a, b *Term, memo map[[2]*Term]bool) bool {
+	if a == b {
+		return true
+	}
+	if a.op != b.op || a.w != b.w || a.isC != b.isC || a.c != b.c || a.name != b.name || a.hi != b.hi || a.lo != b.lo || len(a.args) != len(b.args) {
+		return false
+	}
+	if len(a.args) == 0 {
+		return true
+	}
+	k := [2]*Term{a, b}
+	if r, ok := memo[k]; ok {
+		return r
+	}
+	r := true
+	for i := range a.args {
+		if !termStructEq(a.args[i], b.args[i], memo) {
+			r = false
+			break
+		}
+	}
+	memo[k] = r
+	return r
 }
 
 func init() {
